@@ -137,9 +137,30 @@ def exec_synth(case):
     if int(sm.get_current("iter")) != iter_before + 1:
         raise Violation("Reweighter.run did not advance the iteration counter by one", sig={"kind": "iter-counter"})
     info = oracle(sm, case["N"], case["ess_ratio"], case["vv"], bprev, w, seen, "synthetic history")
+    second = case["seed"] % 3 == 0
+    if second:
+        # second act on the SAME StateManager and Reweighter: the history is replaced (import / load) by a different one of the same
+        # extent (same number of iterations and samples, other log-likelihoods); the step must be decided on the new history
+        ls = case["logscale"]
+        smB, bprevB = build_history(dict(case, logscale=ls + 0.37 if ls < 5 else ls - 0.37))
+        if case["seed"] % 2:
+            lib_call(sm.update_from_dict, smB.to_dict(), what="update_from_dict")
+            how = "update_from_dict()"
+        else:
+            import os
+            from vlib.runs import quiet, scratch_dir
+
+            with scratch_dir() as td, quiet():
+                lib_call(smB.save_state, os.path.join(td, "s.pkl"), what="save_state")
+                lib_call(sm.load_state, os.path.join(td, "s.pkl"), what="load_state")
+            how = "load_state()"
+        del seen[:]
+        w2 = lib_call(rw.run, what="Reweighter.run (second history)")
+        oracle(sm, case["N"], case["ess_ratio"], case["vv"], bprevB, w2, seen,
+               f"same StateManager and Reweighter after {how} replaced the history by another one of the same extent")
     return {"nontrivial": info["advanced"] and case["T"] >= 2,
             "classes": ["mode:" + ("ess" if case["vv"] is None else "vv"), "family:" + case["family"], "advanced" if info["advanced"] else "stayed",
-                        "prev-beta=0" if bprev == 0 else "prev-beta>0"],
+                        "prev-beta=0" if bprev == 0 else "prev-beta>0"] + (["second-history"] if second else []),
             "sample": {"T": case["T"], "N": case["N"], "ess_ratio": case["ess_ratio"], "vv": case["vv"], "beta_prev": bprev,
                        "beta_new": float(sm.get_current("beta")), "ess": info.get("ess")}}
 
